@@ -696,9 +696,10 @@ def _safe_callables(prog: Program, res: Result) -> None:
                     loop = parent(loop)
                 if isinstance(loop, ast.For) and "ClassDef" in norm(loop.iter):
                     txt = norm(host.test)
-                    ctor = "constructors" in txt or "__init__" in txt
                     names_in_test = {x.id for x in ast.walk(host.test) if isinstance(x, ast.Name)}
                     from ..defuse import assignments
+                    # the constructors of the class: a local of the test whose definition selects __init__ / __new__
+                    ctor = "__init__" in txt or any(d is not None and "__init__" in norm(d) for nm in names_in_test for _, d in assignments(fn, nm))
                     base_aware = ".bases" in txt or any(
                         d is not None and ".bases" in norm(d) for nm in names_in_test for _, d in assignments(fn, nm))
                     ok = ctor and base_aware
